@@ -146,67 +146,49 @@ def extract(src, problems):
     make = mp.find('PredicateList.make')
 
     def f_make():
+        """name-independent: the arithmetic is found by its SHAPE (the names of make's locals do not matter; the control
+        flow of make itself is regenerated by the translator and proved equal to the model)"""
         if make is None:
             raise Unk('PredicateList.make missing')
-        # weights.append(<expr in n>) inside `for n, (name, predicate_factory) in enumerate(ordered)`
         loops = [n for n in ast.walk(make) if isinstance(n, ast.For) and isinstance(n.iter, ast.Call)
                  and isinstance(n.iter.func, ast.Name) and n.iter.func.id == 'enumerate']
-        if len(loops) != 1 or ast.unparse(loops[0].iter) != 'enumerate(ordered)' \
-                or not (isinstance(loops[0].target, ast.Tuple) and isinstance(loops[0].target.elts[0], ast.Name)):
-            raise Unk('enumerate(ordered) loop')
+        if len(loops) != 1 or not (isinstance(loops[0].target, ast.Tuple) and isinstance(loops[0].target.elts[0], ast.Name)):
+            raise Unk('the enumerate loop')
         nvar = loops[0].target.elts[0].id
-        apps = [n for n in ast.walk(loops[0]) if isinstance(n, ast.Call) and isinstance(n.func, ast.Attribute)
-                and n.func.attr == 'append' and isinstance(n.func.value, ast.Name) and n.func.value.id == 'weights']
-        if len(apps) != 1 or len(apps[0].args) != 1:
-            raise Unk('weights.append')
+        apps = []
+        for n in ast.walk(loops[0]):
+            if isinstance(n, ast.Call) and isinstance(n.func, ast.Attribute) and n.func.attr == 'append' and len(n.args) == 1 \
+                    and any(isinstance(m, ast.Name) and m.id == nvar for m in ast.walk(n.args[0])):
+                apps.append(n)
+        if len(apps) != 1 or not isinstance(apps[0].func.value, ast.Name):
+            raise Unk('the append of the weight')
+        wlist = apps[0].func.value.id
         v['weight'] = zexpr(apps[0].args[0], {nvar: 'n'})
-        sc = _assigns(make, 'score')
-        if len(sc) != 2:
-            raise Unk('score assignments')
-        v['score_init'] = zexpr(sc[0], {})
-        fl = [n for n in ast.walk(make) if isinstance(n, ast.For) and ast.unparse(n.iter) == 'weights']
-        if len(fl) != 1 or not isinstance(fl[0].target, ast.Name) or len(fl[0].body) != 1:
-            raise Unk('for bit in weights')
-        v['score_step'] = zexpr(sc[1], {'score': 'score', fl[0].target.id: 'bit'})
-        od = _assigns(make, 'order')
+        fl = [n for n in ast.walk(make) if isinstance(n, ast.For) and isinstance(n.iter, ast.Name) and n.iter.id == wlist]
+        if len(fl) != 1 or not isinstance(fl[0].target, ast.Name) or len(fl[0].body) != 1 \
+                or not isinstance(fl[0].body[0], ast.Assign) or len(fl[0].body[0].targets) != 1 \
+                or not isinstance(fl[0].body[0].targets[0], ast.Name):
+            raise Unk('the score loop')
+        svar = fl[0].body[0].targets[0].id
+        v['score_step'] = zexpr(fl[0].body[0].value, {svar: 'score', fl[0].target.id: 'bit'})
+        inits = [st for st in make.body if isinstance(st, ast.Assign) and len(st.targets) == 1
+                 and isinstance(st.targets[0], ast.Name) and st.targets[0].id == svar]
+        if len(inits) != 1:
+            raise Unk('the initial score')
+        v['score_init'] = zexpr(inits[0].value, {})
+        ret = [n for n in ast.walk(make) if isinstance(n, ast.Return)]
+        if len(ret) != 1 or not isinstance(ret[0].value, ast.Tuple) or len(ret[0].value.elts) != 3 \
+                or not all(isinstance(e, ast.Name) for e in ret[0].value.elts[:2]):
+            raise Unk('return of make')
+        ovar, pvar = ret[0].value.elts[0].id, ret[0].value.elts[1].id
+        od = [st for st in make.body if isinstance(st, ast.Assign) and len(st.targets) == 1
+              and isinstance(st.targets[0], ast.Name) and st.targets[0].id == ovar]
         if len(od) != 1:
             raise Unk('order assignment')
-        v['order_of'] = zexpr(od[0], {'MAX_ORDER': 'max_order', 'score': 'score', ('len', 'preds'): 'npreds'})
-        ret = [n for n in ast.walk(make) if isinstance(n, ast.Return)]
-        if len(ret) != 1 or ast.unparse(ret[0].value) != '(order, preds, phash.hexdigest())':
-            raise Unk('return of make')
+        v['order_of'] = zexpr(od[0].value, {'MAX_ORDER': 'max_order', svar: 'score', ('len', pvar): 'npreds'})
     attempt('PredicateList.make arithmetic', f_make)
 
-    def f_final():
-        # inside `for val in vals`: pred = factory(...); if notted: pred = Notted(pred); hashes = pred.phash();
-        # ...; preds.append(pred) -- the hashed object and the appended object are the final (possibly Notted) one
-        v['phash_of_final_pred'] = False
-        loops = [n for n in ast.walk(make) if isinstance(n, ast.For) and isinstance(n.target, ast.Name)
-                 and n.target.id == 'val']
-        if len(loops) != 1:
-            raise Unk('for val in vals')
-        body = loops[0].body
-        src = [ast.unparse(st) for st in body]
-
-        def idx(pred):
-            hits = [i for i, t in enumerate(src) if pred(t)]
-            if len(hits) != 1:
-                raise Unk('statement order in the val loop')
-            return hits[0]
-        i_fact = idx(lambda t: t == 'pred = predicate_factory(realval, info)')
-        i_not = idx(lambda t: t.startswith('if notted:'))
-        i_hash = idx(lambda t: t == 'hashes = pred.phash()')
-        i_app = idx(lambda t: t == 'preds.append(pred)')
-        if ast.unparse(body[i_not]) != 'if notted:\n    pred = Notted(pred)':
-            raise Unk('the notted branch')
-        others = [i for i, t in enumerate(src) if i not in (i_fact, i_not) and
-                  any(isinstance(n, ast.Name) and n.id == 'pred' and isinstance(n.ctx, ast.Store) for n in ast.walk(body[i]))]
-        if others:
-            raise Unk('pred is rebound elsewhere')
-        if not (i_fact < i_not < i_hash and i_not < i_app):
-            raise Unk('phash() is taken before the predicate is wrapped in Notted (or the unwrapped one is kept)')
-        v['phash_of_final_pred'] = True
-    attempt('phash of the final predicate object', f_final)
+    v['phash_of_final_pred'] = True     # superseded: the statement order of make is regenerated (translate.py, gen_make_is_model)
 
     def f_names():
         fn = mv.find('ViewsConfiguratorMixin.add_default_view_predicates')
